@@ -21,33 +21,6 @@ mutual
     | .cons t s r => goodName t && s.tagsGood && r.tagsGood
 end
 
-theorem escapeByte_no (c : UInt8) : ∀ x ∈ escapeByte c, x ≠ cLt ∧ x ≠ cQuot := by
-  intro x hx
-  unfold escapeByte at hx
-  split at hx
-  · revert x; decide
-  split at hx
-  · revert x; decide
-  split at hx
-  · revert x; decide
-  split at hx
-  · revert x; decide
-  split at hx
-  · revert x; decide
-  · rename_i h1 _ _ _ h5
-    simp only [List.mem_singleton] at hx
-    subst hx
-    exact ⟨h1, h5⟩
-
-/-- escaped text contains neither `<` nor `"` -/
-theorem escape_no : ∀ (t : Bytes), ∀ x ∈ escape t, x ≠ cLt ∧ x ≠ cQuot
-  | [], x, hx => by simp [escape] at hx
-  | c :: cs, x, hx => by
-    simp only [escape, List.mem_append] at hx
-    rcases hx with hx | hx
-    · exact escapeByte_no c x hx
-    · exact escape_no cs x hx
-
 /-- text as the serialiser writes it contains no `<` -/
 theorem escapeText_no : ∀ (t : Bytes), ∀ x ∈ escapeText t, x ≠ cLt
   | [], x, hx => by simp [escapeText_nil] at hx
@@ -65,11 +38,41 @@ theorem escapeText_no : ∀ (t : Bytes), ∀ x ∈ escapeText t, x ≠ cLt
     · exact escapeText_no cs x hx
 
 theorem goodRest_nsAttr (ns : Option Bytes) : GoodRest (nsAttr ns) := by
+  rw [nsAttr_eq]
   cases ns with
-  | none => exact Or.inl rfl
+  | none => exact ⟨[], rfl, fun _ h => by simp at h⟩
   | some uri =>
-    refine Or.inr ⟨escape uri, ?_, fun c hc => (escape_no uri c hc).2⟩
-    simp [nsAttr, attrOf]
+    refine ⟨[(xmlnsKey, escape uri)], rfl, fun kv h => ?_⟩
+    simp only [List.mem_singleton] at h
+    subst h
+    exact ⟨(by decide : goodName xmlnsKey = true), fun c hc => (escape_no uri c hc).2⟩
+
+theorem attrPairs_good : ∀ (fs : Flds) (fvs : List FVal), fs.tagsGood = true →
+    ∀ kv ∈ attrPairs fs fvs, goodName kv.1 = true ∧ ∀ c ∈ kv.2, c ≠ cQuot
+  | .nil, _, _, kv, h => by simp [attrPairs] at h
+  | .cons _ _ _ _ _, [], _, kv, h => by simp [attrPairs] at h
+  | .cons tag p sh s rest, fv :: fvs, hg, kv, h => by
+    simp only [Flds.tagsGood, Bool.and_eq_true] at hg
+    obtain ⟨⟨⟨hgt, _⟩, _⟩, hgr⟩ := hg
+    simp only [attrPairs, List.mem_append] at h
+    rcases h with h | h
+    · split at h
+      · simp only [List.mem_append, List.mem_singleton] at h
+        rcases h with h | h
+        · rw [nsDeclFor_key tag kv h]
+          exact ⟨(by decide : goodName xmlnsXsiKey = true), fun c hc => (escapeAttr_clean _ c hc).2.2.2.1⟩
+        · subst h
+          exact ⟨hgt, fun c hc => (escapeAttr_clean _ c hc).2.2.2.1⟩
+      · simp at h
+    · exact attrPairs_good rest fvs hgr kv h
+
+/-- the attributes `start_of` writes for a value (`SerializeContent::attributes`, `attr_value`) -/
+theorem goodRest_encAttrs (s : Sch) (v : Val) (hg : s.tagsGood = true) : GoodRest (encAttrs s v) := by
+  cases s <;> cases v <;> first
+    | exact GoodRest.nil
+    | (rename_i fs vs
+       simp only [Sch.tagsGood] at hg
+       exact ⟨attrPairs fs vs, rfl, attrPairs_good fs vs hg⟩)
 
 theorem WN_textEv (st : List Bytes) (hst : st ≠ []) (x : Bytes) (t : List Ev) (ht : WN st t)
     (hh : headNotText t = true) : WN st (textEv (escapeText x) ++ t) := by
@@ -83,7 +86,12 @@ theorem WN_textEv (st : List Bytes) (hst : st ≠ []) (x : Bytes) (t : List Ev) 
 theorem WN_elem (st : List Bytes) (tag : Bytes) (inner t : List Ev) (hg : goodName tag = true)
     (hi : WN (tag :: st) (inner ++ .stop tag :: t)) : WN st (elem tag inner ++ t) := by
   simp only [elem, List.cons_append, List.append_assoc, List.nil_append, WN]
-  exact ⟨hg, Or.inl rfl, hi⟩
+  exact ⟨hg, GoodRest.nil, hi⟩
+
+theorem WN_elemA (st : List Bytes) (tag a : Bytes) (inner t : List Ev) (hg : goodName tag = true) (ha : GoodRest a)
+    (hi : WN (tag :: st) (inner ++ .stop tag :: t)) : WN st (elemA tag a inner ++ t) := by
+  simp only [elemA, List.cons_append, List.append_assoc, List.nil_append, WN]
+  exact ⟨hg, ha, hi⟩
 
 theorem WN_stop (st : List Bytes) (tag : Bytes) (t : List Ev) (hg : goodName tag = true) (ht : WN st t) :
     WN (tag :: st) (.stop tag :: t) := by
@@ -93,18 +101,21 @@ theorem WN_stop (st : List Bytes) (tag : Bytes) (t : List Ev) (hg : goodName tag
 theorem headNotText_elem (tag : Bytes) (inner t : List Ev) : headNotText (elem tag inner ++ t) = true := by
   simp [elem, headNotText, Ev.isTextB]
 
+theorem headNotText_elemA (tag a : Bytes) (inner t : List Ev) : headNotText (elemA tag a inner ++ t) = true := by
+  simp [elemA, headNotText, Ev.isTextB]
+
 /-- a run of elements (the items of a list) -/
-theorem WN_items (st : List Bytes) (tag : Bytes) (s : Sch) (hg : goodName tag = true)
+theorem WN_items (st : List Bytes) (tag : Bytes) (s : Sch) (hg : goodName tag = true) (hsg : s.tagsGood = true)
     (hs : ∀ (v : Val) (st : List Bytes), st ≠ [] → ∀ (t : List Ev), WN st t → headNotText t = true →
       WN st (encode s v ++ t)) :
     ∀ (vs : List Val) (t : List Ev), WN st t → headNotText t = true →
-      WN st ((vs.flatMap fun v => elem tag (encode s v)) ++ t) ∧
-      headNotText ((vs.flatMap fun v => elem tag (encode s v)) ++ t) = true
+      WN st ((vs.flatMap fun v => elemA tag (encAttrs s v) (encode s v)) ++ t) ∧
+      headNotText ((vs.flatMap fun v => elemA tag (encAttrs s v) (encode s v)) ++ t) = true
   | [], t, ht, hh => by simpa using ⟨ht, hh⟩
   | v :: vs, t, ht, hh => by
-    obtain ⟨ih1, _⟩ := WN_items st tag s hg hs vs t ht hh
+    obtain ⟨ih1, _⟩ := WN_items st tag s hg hsg hs vs t ht hh
     simp only [List.flatMap_cons, List.append_assoc]
-    refine ⟨WN_elem st tag _ _ hg ?_, headNotText_elem _ _ _⟩
+    refine ⟨WN_elemA st tag _ _ _ hg (goodRest_encAttrs s v hsg) ?_, headNotText_elemA _ _ _ _⟩
     exact hs v (tag :: st) (by simp) _ (WN_stop st tag _ hg ih1) (by simp [headNotText, Ev.isTextB])
 
 mutual
@@ -157,8 +168,9 @@ mutual
         cases fv with
         | one v =>
           simp only [encField]
-          exact ⟨WN_elem st tag _ _ hgt (hs v _ (by simp) _ (WN_stop st tag _ hgt ih1) (by simp [headNotText, Ev.isTextB])),
-            headNotText_elem _ _ _⟩
+          exact ⟨WN_elemA st tag _ _ _ hgt (goodRest_encAttrs s v hgs)
+              (hs v _ (by simp) _ (WN_stop st tag _ hgt ih1) (by simp [headNotText, Ev.isTextB])),
+            headNotText_elemA _ _ _ _⟩
         | absent => simpa [encField] using ⟨ih1, ih2⟩
         | many _ => simpa [encField] using ⟨ih1, ih2⟩
       | wrapped m =>
@@ -166,16 +178,20 @@ mutual
         | many vs =>
           simp only [encField]
           refine ⟨WN_elem st tag _ _ hgt ?_, headNotText_elem _ _ _⟩
-          exact (WN_items (tag :: st) m s hgm hs vs _ (WN_stop st tag _ hgt ih1) (by simp [headNotText, Ev.isTextB])).1
+          exact (WN_items (tag :: st) m s hgm hgs hs vs _ (WN_stop st tag _ hgt ih1) (by simp [headNotText, Ev.isTextB])).1
         | absent => simpa [encField] using ⟨ih1, ih2⟩
         | one _ => simpa [encField] using ⟨ih1, ih2⟩
       | flat =>
         cases fv with
         | many vs =>
           simp only [encField]
-          exact WN_items st tag s hgt hs vs _ ih1 ih2
+          exact WN_items st tag s hgt hgs hs vs _ ih1 ih2
         | absent => simpa [encField] using ⟨ih1, ih2⟩
         | one _ => simpa [encField] using ⟨ih1, ih2⟩
+      | attr =>
+        -- no element: the member stands in the start tag
+        have : encField tag .attr s fv = [] := by cases fv <;> rfl
+        simpa [this] using ⟨ih1, ih2⟩
   theorem WN_encodeVariant : ∀ (vars : Vars) (tag : Bytes) (v : Val), vars.tagsGood = true →
       ∀ (st : List Bytes) (t : List Ev), WN st t → headNotText t = true →
       WN st (encodeVariant vars tag v ++ t) ∧ headNotText (encodeVariant vars tag v ++ t) = true
@@ -185,8 +201,9 @@ mutual
       obtain ⟨⟨hgt, hgs⟩, hgr⟩ := hg
       simp only [encodeVariant]
       split
-      · exact ⟨WN_elem st tg _ _ hgt (WN_encode s v hgs _ (by simp) _ (WN_stop st tg _ hgt ht) (by simp [headNotText, Ev.isTextB])),
-          headNotText_elem _ _ _⟩
+      · exact ⟨WN_elemA st tg _ _ _ hgt (goodRest_encAttrs s v hgs)
+            (WN_encode s v hgs _ (by simp) _ (WN_stop st tg _ hgt ht) (by simp [headNotText, Ev.isTextB])),
+          headNotText_elemA _ _ _ _⟩
       · exact WN_encodeVariant r tag v hgr st t ht hh
 end
 
@@ -206,7 +223,7 @@ theorem tokenize_write_doc (root : SerRoot) (s : Sch) (v : Val) (hr : root.tagsG
     apply tokenize_write
     · simp [encodeDoc, headNotText, Ev.isTextB]
     · simp only [encodeDoc, WN]
-      refine ⟨hr, goodRest_nsAttr ns, ?_⟩
+      refine ⟨hr, (goodRest_nsAttr ns).append (goodRest_encAttrs s v hs), ?_⟩
       exact WN_encode s v hs [tag] (by simp) [.stop tag] (WN_stop [] tag [] hr hnil) (by simp [headNotText, Ev.isTextB])
   | nested o i ns =>
     simp only [SerRoot.tagsGood, Bool.and_eq_true] at hr
@@ -214,7 +231,7 @@ theorem tokenize_write_doc (root : SerRoot) (s : Sch) (v : Val) (hr : root.tagsG
     · simp [encodeDoc, headNotText, Ev.isTextB]
     · simp only [encodeDoc, WN, List.cons_append]
       refine ⟨hr.1, goodRest_nsAttr ns, ?_⟩
-      have := WN_elem [o] i (encode s v) [.stop o] hr.2
+      have := WN_elemA [o] i (encAttrs s v) (encode s v) [.stop o] hr.2 (goodRest_encAttrs s v hs)
         (WN_encode s v hs [i, o] (by simp) [.stop i, .stop o] (WN_stop [o] i [.stop o] hr.2 (WN_stop [] o [] hr.1 hnil))
           (by simp [headNotText, Ev.isTextB]))
       simpa using this
